@@ -26,6 +26,7 @@ func __vis(k any) bool { return true }
 func __visn(loop int, k any) bool { return true }
 func __count(set any, f any) int { return 0 }
 func __countseq(s any, n int, f any) int { return 0 }
+func __sumseq(s any, n int, f any) int { return 0 }
 func __dom[K comparable, V any](m map[K]V) map[K]bool { return nil }
 func __len(x any) int { return 0 }
 func __seqeq(a, b any) bool { return true }
@@ -53,6 +54,8 @@ func __del[K comparable, V any](m gmap[K, V], k K) gmap[K, V] { return m }
 func __emptymap[K comparable, V any]() gmap[K, V] { return nil }
 func __idx() int { return 0 }
 func __iter() int { return 0 }
+func __visset() any { return nil }
+func __ranged[T any](zero T) T { return zero }
 func __eq[T any](a, b T) bool { return true }
 func __called(name string) bool { return true }
 func __lastret(name string, i int) any { return nil }
